@@ -1,4 +1,163 @@
-import NumqiModel.Gellmann
+/-
+C16 — Gell-Mann coordinates are an orthogonal-basis isomorphism.
+
+Property theorems only (helper lemmas: `NumqiProofs/Gellmann{Lemmas,Synthesis,Iso}.lean`).
+Everything is about the constants of `NumqiModel/Gellmann.lean` that `Driver/C16.lean` executes:
+`gm`/`allGellmann` (`gellmann_matrix`, `all_gellmann_matrix`), `analysis` (`matrix_to_gellmann_basis`),
+`synthesis` (`gellmann_basis_to_matrix`), `dmToVec`, `vecToDm`, `dmNorm2`, `distance2`.
+
+All statements hold for **every dimension `d ≥ 1`** and every commutative `*`-ring `R` with scalars
+`S : Scalars R` satisfying the relations of the exact square roots (`Scalars.Valid`: `half·2 = 1`, `I² = -1`,
+`cD k² · k(k+1) = 2`, `cI² · d = 2`, `aD k = cD k / 2`, `aI = cI / 2`, `invD · d = 1`, all real).  `exists_valid_complex`
+shows that ℂ with the real square roots is such an instance for every `d ≥ 1`.
+
+Notation: `basis S d a` is element `a` of `all_gellmann_matrix(d)` (order sym ++ antisym ++ diag ++ [I]) as a Mathlib
+matrix; `coef S d A a` is entry `a` of `matrix_to_gellmann_basis(A)`.
+-/
+import NumqiProofs.GellmannIso
+import Mathlib.Analysis.SpecialFunctions.Pow.Real
+import Mathlib.Data.Complex.Basic
+import Mathlib.LinearAlgebra.Matrix.Kronecker
+
 namespace Numqi.C16
-theorem placeholder : True := trivial
+open Numqi Numqi.Gellmann Matrix
+
+variable {R : Type} [CommRing R] [StarRing R] {d : Nat}
+
+/-- `all_gellmann_matrix(d)` has `d²` elements. -/
+theorem allGellmann_length (S : Scalars R) (hd : 1 ≤ d) : (allGellmann S d).length = d * d :=
+  length_allGellmann S hd
+
+/-- every basis element is Hermitian. -/
+theorem gm_hermitian (S : Scalars R) (hS : S.Valid d) (hd : 1 ≤ d) {a : Nat} (ha : a < d * d) :
+    (basis S d a)ᴴ = basis S d a :=
+  basis_hermitian S hS hd ha
+
+/-- **`Tr(G_a G_b) = 2 δ_ab`** in the documented order, all `d`. -/
+theorem gm_orthogonal (S : Scalars R) (hS : S.Valid d) (hd : 1 ≤ d) {a b : Nat} (ha : a < d * d) (hb : b < d * d) :
+    trace (basis S d a * basis S d b) = if a = b then 2 else 0 :=
+  basis_orthogonal S hS hd ha hb
+
+/-- all elements are traceless except the last one, which is `sqrt(2/d)·1` (trace `d·sqrt(2/d)`). -/
+theorem trace_gellmann (S : Scalars R) (hd : 1 ≤ d) {a : Nat} (ha : a < d * d) :
+    trace (basis S d a) = if a = d * d - 1 then (d : R) * S.cI else 0 :=
+  basis_trace S hd ha
+
+theorem last_is_identity (S : Scalars R) (hd : 1 ≤ d) : basis S d (d * d - 1) = S.cI • (1 : Matrix (Fin d) (Fin d) R) := by
+  rw [basis_last S hd]; ext r c; simp [Matrix.diagonal_apply, Matrix.one_apply]
+
+/-- **`gellmann_basis_to_matrix(v) = Σ_a v_a G_a`** (closed-form scatter/cumulative code = explicit expansion). -/
+theorem synthesis_eq_sum (S : Scalars R) (hd : 1 ≤ d) (v : Nat → R) :
+    Matrix.of (synthesis S d v) = ∑ a ∈ Finset.range (d * d), v a • basis S d a :=
+  synthesis_eq_sum' S hd v
+
+/-- **`matrix_to_gellmann_basis(A)_a = ½ Tr(G_a A)`** (closed-form cumulative-sum code = inner product). -/
+theorem analysis_eq_inner (S : Scalars R) (hS : S.Valid d) (hd : 1 ≤ d) (A : Mat d R) {a : Nat} (ha : a < d * d) :
+    (analysis S d A).getD a 0 = S.half * trace (basis S d a * Matrix.of A) :=
+  coef_eq_inner S hS hd A ha
+
+/-- **vector → matrix → vector is the identity** (as lists of length `d²`). -/
+theorem analysis_synthesis (S : Scalars R) (hS : S.Valid d) (hd : 1 ≤ d) (v : Nat → R) :
+    analysis S d (synthesis S d v) = (List.range (d * d)).map v := by
+  apply List.ext_getElem
+  · rw [length_analysis S hd, List.length_map, List.length_range]
+  · intro a h1 h2
+    rw [length_analysis S hd] at h1
+    have := coef_synthesis S hS hd v h1
+    rw [coef, List.getD_eq_getElem?_getD, List.getElem?_eq_getElem (by rw [length_analysis S hd]; exact h1)] at this
+    simpa using this
+
+/-- **matrix → vector → matrix is the identity.** -/
+theorem synthesis_analysis (S : Scalars R) (hS : S.Valid d) (hd : 1 ≤ d) (A : Mat d R) :
+    synthesis S d (fun p => (analysis S d A).getD p 0) = A :=
+  synthesis_coef S hS hd A
+
+/-- the coefficient map is injective. -/
+theorem analysis_injective (S : Scalars R) (hS : S.Valid d) (hd : 1 ≤ d) (A : Mat d R)
+    (h : ∀ a, a < d * d → (analysis S d A).getD a 0 = 0) : A = fun _ _ => 0 := by
+  funext r c; exact coef_injective S hS hd A h r c
+
+/-- **Parseval with the factor ½**: `Σ_a conj(x_a) y_a = ½ Tr(Aᴴ B)`. -/
+theorem parseval_half (S : Scalars R) (hS : S.Valid d) (hd : 1 ≤ d) (A B : Mat d R) :
+    ∑ a ∈ Finset.range (d * d), star ((analysis S d A).getD a 0) * (analysis S d B).getD a 0
+      = S.half * trace ((Matrix.of A)ᴴ * Matrix.of B) :=
+  parseval S hS hd A B
+
+/-- the coefficients of a Hermitian matrix are real, so `.real` in `dm_to_gellmann_basis` loses nothing. -/
+theorem analysis_real_of_hermitian (S : Scalars R) (hS : S.Valid d) (hd : 1 ≤ d) (A : Mat d R)
+    (hA : (Matrix.of A)ᴴ = Matrix.of A) {a : Nat} (ha : a < d * d) :
+    re S ((analysis S d A).getD a 0) = (analysis S d A).getD a 0 :=
+  re_of_star_eq S hS (coef_star_of_hermitian S hS hd A hA ha)
+
+/-- **`dm_to_gellmann_norm(ρ)² = |Bloch vector|²`** (sum over all coefficients but the identity one). -/
+theorem dm_norm_eq (S : Scalars R) (hS : S.Valid d) (hd : 1 ≤ d) (A : Mat d R) :
+    dmNorm2 S d A = ∑ a ∈ Finset.range (d * d - 1), star ((analysis S d A).getD a 0) * (analysis S d A).getD a 0 :=
+  dmNorm2_eq_sum S hS hd A
+
+/-- **`get_density_matrix_distance2(ρ,σ) = |x(ρ) - x(σ)|²`**. -/
+theorem distance2_eq (S : Scalars R) (hS : S.Valid d) (hd : 1 ≤ d) (A B : Mat d R) :
+    distance2 S d A B = ∑ a ∈ Finset.range (d * d),
+      star ((analysis S d A).getD a 0 - (analysis S d B).getD a 0) * ((analysis S d A).getD a 0 - (analysis S d B).getD a 0) :=
+  distance2_eq_sum S hS hd A B
+
+/-- **Bloch-vector round trip**: `gellmann_basis_to_dm(dm_to_gellmann_basis(ρ)) = ρ` for Hermitian `ρ` of trace one. -/
+theorem dm_roundtrip (S : Scalars R) (hS : S.Valid d) (hd : 1 ≤ d) (A : Mat d R)
+    (hA : (Matrix.of A)ᴴ = Matrix.of A) (htr : ∑ l, A l l = 1) :
+    vecToDm S d (fun p => (dmToVec S d A false).getD p 0) = A := by
+  unfold vecToDm
+  refine Eq.trans (synthesis_congr S hd (w := coef S d A) ?_) (synthesis_coef S hS hd A)
+  intro p hp
+  by_cases h : p = d * d - 1
+  · rw [if_pos h, h, coef_last S hd, htr, one_mul]
+  · have hp' : p < d * d - 1 := by omega
+    rw [if_neg h]
+    show (dmToVec S d A false).getD p 0 = coef S d A p
+    rw [dmToVec_getD S hd A hp']
+    exact re_of_star_eq S hS (coef_star_of_hermitian S hS hd A hA hp)
+
+/-- `tensor_n = 2`: the Kronecker products are orthogonal with `Tr = 4 δ`. -/
+theorem tensor2_orthogonal (S : Scalars R) (hS : S.Valid d) (hd : 1 ≤ d) {a b a' b' : Nat}
+    (ha : a < d * d) (hb : b < d * d) (ha' : a' < d * d) (hb' : b' < d * d) :
+    trace ((kroneckerMap (· * ·) (basis S d a) (basis S d b)) * (kroneckerMap (· * ·) (basis S d a') (basis S d b')))
+      = if a = a' ∧ b = b' then 4 else 0 := by
+  rw [← Matrix.mul_kronecker_mul, Matrix.trace_kronecker, basis_orthogonal S hS hd ha ha', basis_orthogonal S hS hd hb hb']
+  by_cases h1 : a = a' <;> by_cases h2 : b = b' <;> simp [h1, h2]; norm_num
+
+/-! ### non-vacuity: ℂ with the real square roots is a valid instance for every `d ≥ 1` -/
+
+/-- the exact scalars over ℂ -/
+noncomputable def complexScalars (d : Nat) : Scalars ℂ where
+  half := 1 / 2
+  I := Complex.I
+  cD := fun k => ((Real.sqrt (2 / ((k : ℝ) * ((k : ℝ) + 1))) : ℝ) : ℂ)
+  cI := ((Real.sqrt (2 / (d : ℝ)) : ℝ) : ℂ)
+  aD := fun k => 1 / 2 * ((Real.sqrt (2 / ((k : ℝ) * ((k : ℝ) + 1))) : ℝ) : ℂ)
+  aI := 1 / 2 * ((Real.sqrt (2 / (d : ℝ)) : ℝ) : ℂ)
+  invD := 1 / (d : ℂ)
+
+theorem exists_valid_complex (hd : 1 ≤ d) : (complexScalars d).Valid d := by
+  have hd0 : (d : ℝ) ≠ 0 := by positivity
+  refine ⟨by norm_num [complexScalars], by simp [complexScalars], by simp [complexScalars], by simp [complexScalars], ?_, ?_, ?_, ?_,
+    fun k => rfl, rfl, ?_⟩
+  · intro k hk _
+    have hk0 : (0 : ℝ) < (k : ℝ) * ((k : ℝ) + 1) := by positivity
+    simp only [complexScalars]
+    rw [← Complex.ofReal_mul, Real.mul_self_sqrt (by positivity)]
+    have hk1 : (k : ℂ) ≠ 0 := by exact_mod_cast (by omega : k ≠ 0)
+    have hk2 : (k : ℂ) + 1 ≠ 0 := by exact_mod_cast (by omega : k + 1 ≠ 0)
+    push_cast
+    field_simp
+  · intro k; simp [complexScalars]
+  · simp only [complexScalars]
+    rw [← Complex.ofReal_mul, Real.mul_self_sqrt (by positivity)]
+    have hdc : (d : ℂ) ≠ 0 := by exact_mod_cast (by omega : d ≠ 0)
+    push_cast
+    field_simp
+  · simp [complexScalars]
+  · simp only [complexScalars]
+    have : (d : ℂ) ≠ 0 := by exact_mod_cast (by omega : d ≠ 0)
+    field_simp
+
+example : ∃ S : Scalars ℂ, S.Valid 3 := ⟨complexScalars 3, exists_valid_complex (by norm_num)⟩
+
 end Numqi.C16
